@@ -237,6 +237,13 @@ struct MoCtx
     MoCtx(MoCtx&& o) noexcept : counter(o.counter) { ++g_moves; }
     static inline long g_moves = 0;
 };
+// a context class with an overloaded unary operator& (handle / proxy types): "&ctx" is not its address
+struct AmpCtx : Ctx
+{
+    static inline AmpCtx* decoy = nullptr;
+    AmpCtx* operator&() { return decoy; }
+    const AmpCtx* operator&() const { return decoy; }
+};
 inline const void* ctx_expected = nullptr;   // address of the caller's object (lvalue categories)
 inline const void* ctx_first_seen = nullptr;
 
@@ -249,7 +256,7 @@ struct X
     {
         using CT = std::remove_reference_t<C>;
         S.ev += "x"; put(Rule); S.ev += "[";
-        const void* addr = static_cast<const void*>(&ctx);
+        const void* addr = static_cast<const void*>(std::addressof(ctx));
         if (!ctx_first_seen) ctx_first_seen = addr;
         S.ev += (ctx_expected ? (addr == ctx_expected ? "=" : "!") : (addr == ctx_first_seen ? "~" : "!"));
         S.ev += std::is_const_v<CT> ? "c" : "m";
@@ -272,7 +279,7 @@ struct XN
     {
         using CT = std::remove_reference_t<C>;
         S.ev += "x"; put(Rule); S.ev += "[";
-        const void* addr = static_cast<const void*>(&ctx);
+        const void* addr = static_cast<const void*>(std::addressof(ctx));
         if (!ctx_first_seen) ctx_first_seen = addr;
         S.ev += (ctx_expected ? (addr == ctx_expected ? "=" : "!") : (addr == ctx_first_seen ? "~" : "!"));
         S.ev += std::is_const_v<CT> ? "c" : "m";
